@@ -2,6 +2,7 @@
    Only statements; proofs are in Proofs/. *)
 From Coq Require Import List NArith ZArith Permutation.
 Require Import Base Mol Canon Text Token Parse Pipeline MolProofs SameMol CanonProofs AstOf RoundTrip2.
+Require ParamsSpec.   (* regenerated source constants still match what the model hard-codes *)
 Require ParseProofs.
 
 (* The emitted string is the spelling of a token list that is a sentence of the inductive
